@@ -133,12 +133,13 @@ def explore (d : Dfa) (sigma : List Nat) : (fuel : Nat) → (todo : Cert) → (s
         | none => none)
       explore d sigma fuel (todo ++ next) ((q, rs) :: seen)
 
-def findCert (d : Dfa) (sigma : List Nat) (r : RE) : Option Cert := explore d sigma 4000 [(0, [r])] []
+def findCert (d : Dfa) (sigma : List Nat) (r : RE) : Option Cert := explore d sigma 200000 [(0, [r])] []
 
 /-- states (expression sets) reachable from `r`, for the spec-level dead-end test -/
-def reachSets (sigma : List Nat) : (fuel : Nat) → (todo : List (List RE)) → (seen : List (List RE)) → List (List RE)
-  | 0, _, seen => seen
-  | _ + 1, [], seen => seen
+def reachSets (sigma : List Nat) : (fuel : Nat) → (todo : List (List RE)) → (seen : List (List RE)) → Option (List (List RE))
+  | 0, [], seen => some seen
+  | 0, _ :: _, _ => none          -- the exploration did not finish: no verdict
+  | _ + 1, [], seen => some seen
   | fuel + 1, rs :: todo, seen =>
     if seen.any (RE.sameSet · rs) then reachSets sigma fuel todo seen
     else
@@ -159,10 +160,15 @@ def liveSets (sigma : List Nat) (generatable : Nat → Bool) (all : List (List R
     be reached by generatable nodes alone — every way to complete the content from there passes through a
     non-generatable node.  (The reading is global on purpose: in `(a a)* a img` every state *offers* the
     generatable `a`, yet no match can end without the `img`.) -/
+def hasDeadEnd? (sigma : List Nat) (generatable : Nat → Bool) (r : RE) : Option Bool :=
+  match reachSets sigma 200000 [[r]] [] with
+  | none => none                  -- too many derivative sets for the allowance: unknown
+  | some all =>
+    let live := liveSets sigma generatable all (all.length + 1) (all.filter RE.nullableSet)
+    some (all.any (fun rs => !live.any (RE.sameSet · rs)))
+
 def hasDeadEnd (sigma : List Nat) (generatable : Nat → Bool) (r : RE) : Bool :=
-  let all := reachSets sigma 4000 [[r]] []
-  let live := liveSets sigma generatable all (all.length + 1) (all.filter RE.nullableSet)
-  all.any (fun rs => !live.any (RE.sameSet · rs))
+  (hasDeadEnd? sigma generatable r).getD false
 
 /-! ### the content-expression grammar -/
 
@@ -178,6 +184,12 @@ deriving Repr, DecidableEq, Inhabited
 
 def isWordChar (c : Char) : Bool := c.isAlphanum || c == '_'
 
+/-- `str.isspace()` of one character: the one-character tokens `TokenStream` drops (`if i.strip()`) -/
+def isSpaceChar (c : Char) : Bool :=
+  let n := c.toNat
+  (9 ≤ n && n ≤ 13) || (28 ≤ n && n ≤ 32) || n == 0x85 || n == 0xA0 || n == 0x1680 ||
+  (0x2000 ≤ n && n ≤ 0x200A) || n == 0x2028 || n == 0x2029 || n == 0x202F || n == 0x205F || n == 0x3000
+
 /-- tokens: maximal runs of word characters, or single non-space characters -/
 def tokenize (s : String) : List String :=
   let rec go : List Char → List Char → List String → List String
@@ -186,7 +198,7 @@ def tokenize (s : String) : List String :=
       if isWordChar c then go cs (c :: cur) acc
       else
         let acc := if cur.isEmpty then acc else String.ofList cur.reverse :: acc
-        if c.isWhitespace then go cs [] acc else go cs [] (String.singleton c :: acc)
+        if isSpaceChar c then go cs [] acc else go cs [] (String.singleton c :: acc)
   go s.toList [] []
 
 def isWordTok (t : String) : Bool := !t.isEmpty && t.toList.all isWordChar
